@@ -50,6 +50,7 @@ type Engine struct {
 	models     map[string]modelFn
 	files      []*ContractFile
 	inlineOK   []*regexp.Regexp
+	sentinels  map[*ssa.Global]bool
 	verbose    bool
 }
 
@@ -975,4 +976,90 @@ func intOrAxioms() string {
 		fmt.Fprintf(&sb, "(assert (forall ((a Int) (b Int)) (! (=> (and (<= 0 a) (< a %s) (<= 0 b) (= (mod b %s) 0)) (and (= (int_or a b) (+ a b)) (= (int_or b a) (+ a b)))) :pattern ((int_or a b)) :pattern ((int_or b a)))))\n", m, m)
 	}
 	return sb.String()
+}
+
+// sentinelError reports whether g is an error-typed package variable that its package's init
+// function sets exactly once to a value that cannot be nil (a MakeInterface, or the result of a
+// constructor in the pure-nonnil extern category) and that no other function of that package
+// stores to or takes the address of.
+func (e *Engine) sentinelError(g *ssa.Global) bool {
+	if r, ok := e.sentinels[g]; ok {
+		return r
+	}
+	res := func() bool {
+		t := g.Type().(*types.Pointer).Elem()
+		if _, ok := t.Underlying().(*types.Interface); !ok || g.Pkg == nil {
+			return false
+		}
+		if n, ok := t.(*types.Named); !ok || n.Obj().Name() != "error" || n.Obj().Pkg() != nil {
+			return false
+		}
+		g.Pkg.Build()
+		initStores := 0
+		ok := true
+		var visit func(fn *ssa.Function)
+		seen := map[*ssa.Function]bool{}
+		visit = func(fn *ssa.Function) {
+			if fn == nil || seen[fn] {
+				return
+			}
+			seen[fn] = true
+			for _, b := range fn.Blocks {
+				for _, in := range b.Instrs {
+					for _, op := range in.Operands(nil) {
+						if *op != ssa.Value(g) {
+							continue
+						}
+						switch i := in.(type) {
+						case *ssa.UnOp: // load
+						case *ssa.Store:
+							if i.Addr != ssa.Value(g) || fn.Name() != "init" || fn.Parent() != nil {
+								ok = false
+								break
+							}
+							initStores++
+							switch v := i.Val.(type) {
+							case *ssa.MakeInterface:
+							case *ssa.Call:
+								callee := v.Call.StaticCallee()
+								if callee == nil {
+									ok = false
+								} else if cat, has := e.externCat(callee.String()); !has || cat != "pure-nonnil" {
+									ok = false
+								}
+							default:
+								ok = false
+							}
+						default:
+							ok = false
+						}
+					}
+				}
+			}
+			for _, a := range fn.AnonFuncs {
+				visit(a)
+			}
+		}
+		for _, m := range g.Pkg.Members {
+			switch mm := m.(type) {
+			case *ssa.Function:
+				visit(mm)
+			case *ssa.Type:
+				for _, tt := range []types.Type{mm.Type(), types.NewPointer(mm.Type())} {
+					ms := e.prog.MethodSets.MethodSet(tt)
+					for i := 0; i < ms.Len(); i++ {
+						if fn := e.prog.MethodValue(ms.At(i)); fn != nil && fn.Pkg == g.Pkg {
+							visit(fn)
+						}
+					}
+				}
+			}
+		}
+		return ok && initStores == 1
+	}()
+	if e.sentinels == nil {
+		e.sentinels = map[*ssa.Global]bool{}
+	}
+	e.sentinels[g] = res
+	return res
 }
